@@ -134,11 +134,18 @@ Proof.
   destruct H as [->|H]; [left; reflexivity|right; eapply IH; exact H].
 Qed.
 
+Lemma existsb_firstn_false : forall A (f : A -> bool) l n, existsb f l = false -> existsb f (firstn n l) = false.
+Proof.
+  intros A f l. induction l as [|a l IH]; intros [|n] H; cbn [firstn existsb] in *; try reflexivity.
+  apply orb_false_iff in H. destruct H as [Ha Hl]. rewrite Ha, (IH n Hl). reflexivity.
+Qed.
+
 Theorem type_affinity_stable : forall tab, aff_ok tab = true ->
   forall t text, canon_args t -> render_type tab t = Some text ->
   rt_class (affinity tab text) = rt_class t /\ render_type tab (affinity tab text) = Some text.
 Proof.
   intros tab Hok t text Hc Hr. unfold render_type in Hr.
+  destruct (existsb is_zero (rt_args t)) eqn:Ez; [discriminate|].
   destruct (lookup_render (a_render tab) (rt_class t) (length (rt_args t))) as [[name k]|] eqn:El; [|discriminate].
   apply lookup_render_in in El. unfold aff_ok in Hok.
   apply forallb_forall with (x := (rt_class t, length (rt_args t), (name, k))) in Hok; [|assumption].
@@ -167,6 +174,7 @@ Proof.
     rewrite (find_ints_joined A _ HcA (le_n _)). rewrite HlA, Hacc.
     destruct name as [|n0 name']; [discriminate|].
     cbn [rt_class rt_args]. split; [reflexivity|].
-    unfold render_type. cbn [rt_class rt_args]. rewrite HlA, El2.
+    unfold render_type. cbn [rt_class rt_args]. unfold A at 1. rewrite (existsb_firstn_false _ is_zero _ _ Ez). fold A.
+    rewrite HlA, El2.
     rewrite <- HlA at 1. rewrite firstn_all. reflexivity.
 Qed.
